@@ -210,8 +210,14 @@ impl NodeId {
             old(arena).wf(),
             old(arena).has(self),
         ensures
-            // @ob C01.wf@detach C01 C02 C12
-            final(arena).wf(),
+            // @ob C01.links_well_formed@detach C01 C12
+            links_ok(final(arena).nodes@),
+            // @ob C02.acyclic@detach C02 C01
+            final(arena).acyclic(),
+            // @ob C08.payload_tags_consistent@detach C08 C07
+            data_ok(final(arena).nodes@),
+            // @ob C07.free_list_well_formed@detach C07 C08
+            final(arena).fl_ok(),
             // @ob C03.detach_exact_effect C03 C08
             detach_post(old(arena).nodes@, final(arena).nodes@, self.idx()),
             final(arena).first_free_slot == old(arena).first_free_slot,
@@ -260,8 +266,14 @@ impl NodeId {
             // the unchecked form panics exactly when the checked form fails (see the must-panic variant)
             !insert_impossible(old(arena).nodes@, self, new_child),
         ensures
-            // @ob C01.wf@append C01 C02 C12
-            final(arena).wf(),
+            // @ob C01.links_well_formed@append C01 C12
+            links_ok(final(arena).nodes@),
+            // @ob C02.acyclic@append C02 C01
+            final(arena).acyclic(),
+            // @ob C08.payload_tags_consistent@append C08 C07
+            data_ok(final(arena).nodes@),
+            // @ob C07.free_list_well_formed@append C07 C08
+            final(arena).fl_ok(),
             final(arena).first_free_slot == old(arena).first_free_slot,
             final(arena).last_free_slot == old(arena).last_free_slot,
             // @ob C05.append_has_the_effect_of_the_checked_form C05 C03
@@ -289,8 +301,14 @@ impl NodeId {
             old(arena).current(self),
             old(arena).current(new_child),
         ensures
-            // @ob C01.wf@checked_append C01 C02 C12
-            final(arena).wf(),
+            // @ob C01.links_well_formed@checked_append C01 C12
+            links_ok(final(arena).nodes@),
+            // @ob C02.acyclic@checked_append C02 C01
+            final(arena).acyclic(),
+            // @ob C08.payload_tags_consistent@checked_append C08 C07
+            data_ok(final(arena).nodes@),
+            // @ob C07.free_list_well_formed@checked_append C07 C08
+            final(arena).fl_ok(),
             // @ob C05.append_fails_iff_impossible C05 C12
             r is Err <==> insert_impossible(old(arena).nodes@, self, new_child),
             // @ob C05.append_reports_a_reason_that_applies C05
@@ -389,8 +407,14 @@ impl NodeId {
             // append_value panics exactly when self is removed (see the must-panic variant)
             !old(arena).at(self).stamp.removed(),
         ensures
-            // @ob C01.wf@append_value C01 C02 C12
-            final(arena).wf(),
+            // @ob C01.links_well_formed@append_value C01 C12
+            links_ok(final(arena).nodes@),
+            // @ob C02.acyclic@append_value C02 C01
+            final(arena).acyclic(),
+            // @ob C08.payload_tags_consistent@append_value C08 C07
+            data_ok(final(arena).nodes@),
+            // @ob C07.free_list_well_formed@append_value C07 C08
+            final(arena).fl_ok(),
             // @ob C03.append_value_is_new_node_then_append C03 C07
             exists|m: Arena<T>| #[trigger]
                 alloc_post(*old(arena), m, r, value) && insert_post(
@@ -441,8 +465,14 @@ impl NodeId {
             // the unchecked form panics exactly when the checked form fails (see the must-panic variant)
             !insert_impossible(old(arena).nodes@, self, new_child),
         ensures
-            // @ob C01.wf@prepend C01 C02 C12
-            final(arena).wf(),
+            // @ob C01.links_well_formed@prepend C01 C12
+            links_ok(final(arena).nodes@),
+            // @ob C02.acyclic@prepend C02 C01
+            final(arena).acyclic(),
+            // @ob C08.payload_tags_consistent@prepend C08 C07
+            data_ok(final(arena).nodes@),
+            // @ob C07.free_list_well_formed@prepend C07 C08
+            final(arena).fl_ok(),
             final(arena).first_free_slot == old(arena).first_free_slot,
             final(arena).last_free_slot == old(arena).last_free_slot,
             // @ob C05.prepend_has_the_effect_of_the_checked_form C05 C03
@@ -470,8 +500,14 @@ impl NodeId {
             old(arena).current(self),
             old(arena).current(new_child),
         ensures
-            // @ob C01.wf@checked_prepend C01 C02 C12
-            final(arena).wf(),
+            // @ob C01.links_well_formed@checked_prepend C01 C12
+            links_ok(final(arena).nodes@),
+            // @ob C02.acyclic@checked_prepend C02 C01
+            final(arena).acyclic(),
+            // @ob C08.payload_tags_consistent@checked_prepend C08 C07
+            data_ok(final(arena).nodes@),
+            // @ob C07.free_list_well_formed@checked_prepend C07 C08
+            final(arena).fl_ok(),
             // @ob C05.prepend_fails_iff_impossible C05 C12
             r is Err <==> insert_impossible(old(arena).nodes@, self, new_child),
             // @ob C05.prepend_reports_a_reason_that_applies C05
@@ -571,8 +607,14 @@ impl NodeId {
             // the unchecked form panics exactly when the checked form fails (see the must-panic variant)
             !insert_impossible(old(arena).nodes@, self, new_sibling),
         ensures
-            // @ob C01.wf@insert_after C01 C02 C12
-            final(arena).wf(),
+            // @ob C01.links_well_formed@insert_after C01 C12
+            links_ok(final(arena).nodes@),
+            // @ob C02.acyclic@insert_after C02 C01
+            final(arena).acyclic(),
+            // @ob C08.payload_tags_consistent@insert_after C08 C07
+            data_ok(final(arena).nodes@),
+            // @ob C07.free_list_well_formed@insert_after C07 C08
+            final(arena).fl_ok(),
             final(arena).first_free_slot == old(arena).first_free_slot,
             final(arena).last_free_slot == old(arena).last_free_slot,
             // @ob C05.insert_after_has_the_effect_of_the_checked_form C05 C03
@@ -600,8 +642,14 @@ impl NodeId {
             old(arena).current(self),
             old(arena).current(new_sibling),
         ensures
-            // @ob C01.wf@checked_insert_after C01 C02 C12
-            final(arena).wf(),
+            // @ob C01.links_well_formed@checked_insert_after C01 C12
+            links_ok(final(arena).nodes@),
+            // @ob C02.acyclic@checked_insert_after C02 C01
+            final(arena).acyclic(),
+            // @ob C08.payload_tags_consistent@checked_insert_after C08 C07
+            data_ok(final(arena).nodes@),
+            // @ob C07.free_list_well_formed@checked_insert_after C07 C08
+            final(arena).fl_ok(),
             // @ob C05.insert_after_fails_iff_impossible C05 C12
             r is Err <==> insert_impossible(old(arena).nodes@, self, new_sibling),
             // @ob C05.insert_after_reports_a_reason_that_applies C05
@@ -705,8 +753,14 @@ impl NodeId {
             // the unchecked form panics exactly when the checked form fails (see the must-panic variant)
             !insert_impossible(old(arena).nodes@, self, new_sibling),
         ensures
-            // @ob C01.wf@insert_before C01 C02 C12
-            final(arena).wf(),
+            // @ob C01.links_well_formed@insert_before C01 C12
+            links_ok(final(arena).nodes@),
+            // @ob C02.acyclic@insert_before C02 C01
+            final(arena).acyclic(),
+            // @ob C08.payload_tags_consistent@insert_before C08 C07
+            data_ok(final(arena).nodes@),
+            // @ob C07.free_list_well_formed@insert_before C07 C08
+            final(arena).fl_ok(),
             final(arena).first_free_slot == old(arena).first_free_slot,
             final(arena).last_free_slot == old(arena).last_free_slot,
             // @ob C05.insert_before_has_the_effect_of_the_checked_form C05 C03
@@ -734,8 +788,14 @@ impl NodeId {
             old(arena).current(self),
             old(arena).current(new_sibling),
         ensures
-            // @ob C01.wf@checked_insert_before C01 C02 C12
-            final(arena).wf(),
+            // @ob C01.links_well_formed@checked_insert_before C01 C12
+            links_ok(final(arena).nodes@),
+            // @ob C02.acyclic@checked_insert_before C02 C01
+            final(arena).acyclic(),
+            // @ob C08.payload_tags_consistent@checked_insert_before C08 C07
+            data_ok(final(arena).nodes@),
+            // @ob C07.free_list_well_formed@checked_insert_before C07 C08
+            final(arena).fl_ok(),
             // @ob C05.insert_before_fails_iff_impossible C05 C12
             r is Err <==> insert_impossible(old(arena).nodes@, self, new_sibling),
             // @ob C05.insert_before_reports_a_reason_that_applies C05
@@ -836,8 +896,14 @@ impl NodeId {
             old(arena).wf(),
             old(arena).live(self),
         ensures
-            // @ob C01.wf@remove C01 C02 C12
-            final(arena).wf(),
+            // @ob C01.links_well_formed@remove C01 C12
+            links_ok(final(arena).nodes@),
+            // @ob C02.acyclic@remove C02 C01
+            final(arena).acyclic(),
+            // @ob C08.payload_tags_consistent@remove C08 C07
+            data_ok(final(arena).nodes@),
+            // @ob C07.free_list_well_formed@remove C07 C08
+            final(arena).fl_ok(),
             // @ob C04.remove_splices_children_into_place C04
             remove_post(old(arena).nodes@, final(arena).nodes@, self.idx()),
             // @ob C06.remove_marks_the_id_removed C06 C12
@@ -934,8 +1000,14 @@ impl NodeId {
             old(arena).wf(),
             old(arena).live(self),
         ensures
-            // @ob C01.wf@remove_subtree C01 C02 C12
-            final(arena).wf(),
+            // @ob C01.links_well_formed@remove_subtree C01 C12
+            links_ok(final(arena).nodes@),
+            // @ob C02.acyclic@remove_subtree C02 C01
+            final(arena).acyclic(),
+            // @ob C08.payload_tags_consistent@remove_subtree C08 C07
+            data_ok(final(arena).nodes@),
+            // @ob C07.free_list_well_formed@remove_subtree C07 C08
+            final(arena).fl_ok(),
             final(arena).nodes@.len() == old(arena).nodes@.len(),
             // @ob C12.remove_subtree_removes_the_node C12 C04
             final(arena).at(self).stamp.removed(),
@@ -1138,8 +1210,14 @@ impl<T> Arena<T> {
         ensures
             // @ob C13.new_is_empty C13
             r.nodes@.len() == 0 && r.first_free_slot is None && r.last_free_slot is None,
-            // @ob C01.wf@new C01 C02 C12
-            r.wf(),
+            // @ob C01.links_well_formed@new C01 C12
+            links_ok(r.nodes@),
+            // @ob C02.acyclic@new C02 C01
+            r.acyclic(),
+            // @ob C08.payload_tags_consistent@new C08 C07
+            data_ok(r.nodes@),
+            // @ob C07.free_list_well_formed@new C07 C08
+            r.fl_ok(),
     {
         proof {
             lemma_empty_wf::<T>();
@@ -1151,8 +1229,14 @@ impl<T> Arena<T> {
         ensures
             // @ob C13.with_capacity_is_empty C13
             r.nodes@.len() == 0 && r.first_free_slot is None && r.last_free_slot is None,
-            // @ob C01.wf@with_capacity C01 C02 C12
-            r.wf(),
+            // @ob C01.links_well_formed@with_capacity C01 C12
+            links_ok(r.nodes@),
+            // @ob C02.acyclic@with_capacity C02 C01
+            r.acyclic(),
+            // @ob C08.payload_tags_consistent@with_capacity C08 C07
+            data_ok(r.nodes@),
+            // @ob C07.free_list_well_formed@with_capacity C07 C08
+            r.fl_ok(),
     {
         proof {
             lemma_empty_wf::<T>();
@@ -1219,8 +1303,14 @@ impl<T> Arena<T> {
         requires
             old(self).wf(),
         ensures
-            // @ob C01.wf@new_node C01 C02 C12
-            final(self).wf(),
+            // @ob C01.links_well_formed@new_node C01 C12
+            links_ok(final(self).nodes@),
+            // @ob C02.acyclic@new_node C02 C01
+            final(self).acyclic(),
+            // @ob C08.payload_tags_consistent@new_node C08 C07
+            data_ok(final(self).nodes@),
+            // @ob C07.free_list_well_formed@new_node C07 C08
+            final(self).fl_ok(),
             // @ob C07.new_node_returns_live_id C07 C08
             final(self).live(r) && final(self).at(r).data == NodeData::Data(data),
             // @ob C12.new_node_starts_unlinked C12 C07
@@ -1356,8 +1446,14 @@ impl<T> Arena<T> {
         ensures
             // @ob C13.clear_equals_new C13
             final(self).nodes@.len() == 0 && final(self).first_free_slot is None && final(self).last_free_slot is None,
-            // @ob C01.wf@clear C01 C02 C12
-            final(self).wf(),
+            // @ob C01.links_well_formed@clear C01 C12
+            links_ok(final(self).nodes@),
+            // @ob C02.acyclic@clear C02 C01
+            final(self).acyclic(),
+            // @ob C08.payload_tags_consistent@clear C08 C07
+            data_ok(final(self).nodes@),
+            // @ob C07.free_list_well_formed@clear C07 C08
+            final(self).fl_ok(),
     {
         self.nodes.clear();
         self.first_free_slot = None;
@@ -1380,11 +1476,17 @@ impl<T> Arena<T> {
             old(self).wf(),
             old(self).has(id),
             !old(self).at(id).stamp.removed(),
-            // only a node that is out of every tree is freed (C12)
+            // @ob C12.only_a_node_that_is_out_of_every_tree_is_freed C12 C04 C01
             no_links(old(self).at(id)),
         ensures
-            // @ob C01.wf@free_node C01 C02 C12
-            final(self).wf(),
+            // @ob C01.links_well_formed@free_node C01 C12
+            links_ok(final(self).nodes@),
+            // @ob C02.acyclic@free_node C02 C01
+            final(self).acyclic(),
+            // @ob C08.payload_tags_consistent@free_node C08 C07
+            data_ok(final(self).nodes@),
+            // @ob C07.free_list_well_formed@free_node C07 C08
+            final(self).fl_ok(),
             // @ob C02.free_node_keeps_rank_witness C02
             forall|w: Ranks| ranked(old(self).nodes@, w) ==> ranked(final(self).nodes@, w),
             final(self).nodes@.len() == old(self).nodes@.len(),
@@ -1709,18 +1811,29 @@ pub fn insert_with_neighbors<T>(
     // @props C01 C02 C03 C05 C08 C12
     requires
         old(arena).wf(),
+        // @ob C12.only_a_live_node_is_inserted C12 C05
         old(arena).live(new),
+        // @ob C05.node_is_detached_before_it_is_inserted C05 C03
         is_root(old(arena).nodes@, new.idx()),
+        // @ob C05.insert_position_is_a_gap C05 C03 C01
         is_gap(old(arena).nodes@, parent, previous_sibling, next_sibling),
+        // @ob C05.node_is_not_its_own_neighbour C05
         not_at(new.idx(), parent),
         not_at(new.idx(), previous_sibling),
         not_at(new.idx(), next_sibling),
+        // @ob C02.inserted_node_is_not_an_ancestor_of_its_new_parent C02 C05 C01
         parent is Some ==> exists|w: Ranks| ranked(old(arena).nodes@, w) && !in_sub(old(arena).nodes@, w, new.idx(), parent->0.idx()),
     ensures
         // @ob C05.insert_with_neighbors_succeeds C05
         res is Ok,
-        // @ob C01.wf@insert_with_neighbors C01 C02 C12
-        final(arena).wf(),
+        // @ob C01.links_well_formed@insert_with_neighbors C01 C12
+        links_ok(final(arena).nodes@),
+        // @ob C02.acyclic@insert_with_neighbors C02 C01
+        final(arena).acyclic(),
+        // @ob C08.payload_tags_consistent@insert_with_neighbors C08 C07
+        data_ok(final(arena).nodes@),
+        // @ob C07.free_list_well_formed@insert_with_neighbors C07 C08
+        final(arena).fl_ok(),
         // @ob C03.insert_exact_effect C03 C08
         insert_post(old(arena).nodes@, final(arena).nodes@, new, parent, previous_sibling, next_sibling),
         final(arena).first_free_slot == old(arena).first_free_slot,
@@ -1775,8 +1888,14 @@ pub fn insert_last_unchecked<T>(arena: &mut Arena<T>, new: NodeId, parent: NodeI
         new.idx() != parent.idx(),
         exists|w: Ranks| ranked(old(arena).nodes@, w) && !in_sub(old(arena).nodes@, w, new.idx(), parent.idx()),
     ensures
-        // @ob C01.wf@insert_last_unchecked C01 C02 C12
-        final(arena).wf(),
+        // @ob C01.links_well_formed@insert_last_unchecked C01 C12
+        links_ok(final(arena).nodes@),
+        // @ob C02.acyclic@insert_last_unchecked C02 C01
+        final(arena).acyclic(),
+        // @ob C08.payload_tags_consistent@insert_last_unchecked C08 C07
+        data_ok(final(arena).nodes@),
+        // @ob C07.free_list_well_formed@insert_last_unchecked C07 C08
+        final(arena).fl_ok(),
         // @ob C03.insert_last_exact_effect C03 C08
         insert_post(old(arena).nodes@, final(arena).nodes@, new, Some(parent), old(arena).at(parent).last_child, None),
         final(arena).first_free_slot == old(arena).first_free_slot,
